@@ -16,7 +16,10 @@ EXPR_KINDS = ("lambda", "comp")
 ROLES = {
     "module": ("none", "read", "assign", "aug", "walrus", "for", "def", "class", "import"),
     "function": ("none", "read", "assign", "aug", "walrus", "for", "def", "class", "import", "param", "global-assign",
-                 "global-read", "nonlocal-assign", "nonlocal-read", "nonlocal-aug", "late-assign"),
+                 "global-read", "nonlocal-assign", "nonlocal-read", "nonlocal-aug", "late-assign",
+                 # a (never executed) mention of __class__ BEFORE the name is used: in a method the implicit __class__ cell
+                 # then precedes the name in the list of free variables
+                 "classref-read", "classref-nonlocal-assign", "classref-nonlocal-aug"),
     "class": ("none", "read", "assign", "aug", "walrus", "for", "def", "class", "import", "global-assign", "global-read",
               "nonlocal-assign", "nonlocal-read", "late-assign"),
     "lambda": ("none", "read", "param", "walrus", "param-default"),
@@ -69,6 +72,9 @@ class Render:
             "nonlocal-assign": [f"nonlocal {x}", f"{x} = {t}", rd],
             "nonlocal-aug": [f"nonlocal {x}", f"{x} += {t}", rd],
             "nonlocal-read": [f"nonlocal {x}", f"print({sid}, 'r', show({x}))"],
+            "classref-read": ["if 0:", "    __class__", f"print({sid}, 'r', show({x}))"],
+            "classref-nonlocal-assign": [f"nonlocal {x}", "if 0:", "    __class__", f"{x} = {t}", rd],
+            "classref-nonlocal-aug": [f"nonlocal {x}", "if 0:", "    __class__", f"{x} += {t}", rd],
         }[role]
 
     def post(self, role, sid):
@@ -148,16 +154,27 @@ def child_kinds(kind):
     return STMT_KINDS + EXPR_KINDS if kind in ("module", "function", "class") else EXPR_KINDS
 
 
-def enum_trees(kind, depth, max_children):
+CLASSREF = ("classref-read", "classref-nonlocal-assign", "classref-nonlocal-aug")
+
+
+def roles_of(kind, parent):
+    """the __class__ roles only make sense for methods (a function directly in a class body); a function nested deeper
+    that mentions __class__ is refused by the converter (AssertionError) - outside the supported fragment"""
+    if kind == "function" and parent != "class":
+        return tuple(r for r in ROLES[kind] if r not in CLASSREF)
+    return ROLES[kind]
+
+
+def enum_trees(kind, depth, max_children, parent=None):
     """all scope trees rooted at `kind` with at most `depth` further levels"""
-    for role in ROLES[kind]:
+    for role in roles_of(kind, parent):
         if depth == 0:
             yield Node(kind, role)
             continue
         yield Node(kind, role)
         subs = []
         for ck in child_kinds(kind):
-            subs.append(list(enum_trees(ck, depth - 1, max_children)))
+            subs.append(list(enum_trees(ck, depth - 1, max_children, kind)))
         flat = [t for s in subs for t in s]
         for c in flat:
             yield Node(kind, role, [c])
@@ -166,12 +183,24 @@ def enum_trees(kind, depth, max_children):
                 yield Node(kind, role, [a, b])
 
 
-def random_tree(rng, kind="module", depth=4, max_children=2):
-    role = rng.choice(ROLES[kind])
+def method_trees():
+    """module > function > class > method that mentions __class__ before it uses the name (> optional lambda / comprehension)"""
+    for r0 in ("none", "assign"):
+        for r1 in ROLES["function"]:
+            for r2 in ("none", "assign", "read", "late-assign", "nonlocal-read", "global-read"):
+                for r3 in ("classref-read", "classref-nonlocal-assign", "classref-nonlocal-aug"):
+                    for kid in (None, Node("lambda", "read"), Node("comp", "read"), Node("function", "read"),
+                                Node("function", "nonlocal-assign")):
+                        m = Node("function", r3, [kid] if kid else [])
+                        yield Node("module", r0, [Node("function", r1, [Node("class", r2, [m])])])
+
+
+def random_tree(rng, kind="module", depth=4, max_children=2, parent=None):
+    role = rng.choice(roles_of(kind, parent))
     kids = []
     if depth > 0:
         for _ in range(rng.choice([0, 1, 1, 2][: max_children + 2])):
-            kids.append(random_tree(rng, rng.choice(child_kinds(kind)), depth - 1, max_children))
+            kids.append(random_tree(rng, rng.choice(child_kinds(kind)), depth - 1, max_children, kind))
     return Node(kind, role, kids)
 
 
